@@ -99,7 +99,9 @@ type Fault struct {
 }
 
 func (f *Fault) matches(actor, verb string, res Res, name string) bool {
-	return (f.Actor == "" || f.Actor == actor) && (f.Verb == "" || f.Verb == verb) && (f.Res == "" || f.Res == res) && (f.Name == "" || f.Name == name)
+	actorOK := f.Actor == "" || f.Actor == actor ||
+		(f.Actor == "controllers" && (actor == "job" || actor == "jobqueue" || actor == "jobconfig" || actor == "cron"))
+	return actorOK && (f.Verb == "" || f.Verb == verb) && (f.Res == "" || f.Res == res) && (f.Name == "" || f.Name == name)
 }
 
 // CrashPlan kills the acting process at its k-th API call of the current step.
